@@ -46,10 +46,13 @@ JOBS = {
     "gtfC": ("path", GTF_C),
     "gffA": ("path", GFF_A), "gffB": ("path", GFF_B), "gtfA": ("path", GTF_A), "gtfB": ("path", GTF_B),
     "gffA_str": ("string", GFF_A),
+    "gffDUP": ("fails", GFF_A + [GFF_A[2]]),  # duplicate ID under the default merge_strategy='error': the import raises
+    "gtfA_noinfer": ("noinfer", GTF_A),       # GTF with both inference switches off
     "gffA_force": ("force", GFF_A),          # output file already exists; force=True
     "gffB_url": ("url", GFF_B),              # input given as a file:// URL
 }
-SETS2 = [("gffA", "gffA"), ("gffA", "gffB"), ("gffA", "gtfA"), ("gtfA", "gtfB"), ("gtfA", "gtfA"), ("gffB", "gffA_str"), ("gtfC", "gffB"), ("gtfA", "gffA_force"), ("gffB_url", "gffA")]
+EXPECT_FAIL = {"gffDUP"}
+SETS2 = [("gffDUP", "gffB"), ("gtfA_noinfer", "gffA"), ("gffA", "gffA"), ("gffA", "gffB"), ("gffA", "gtfA"), ("gtfA", "gtfB"), ("gtfA", "gtfA"), ("gffB", "gffA_str"), ("gtfC", "gffB"), ("gtfA", "gffA_force"), ("gffB_url", "gffA")]
 SETS3 = [("gffA", "gtfA", "gffB"), ("gtfA", "gtfC", "gtfB"), ("gffA", "gffA", "gffA")]
 READERS = [2, 3]
 
@@ -65,7 +68,16 @@ def bounds(tier):
 
 def make_import(kind, lines, outdb, indir, idx):
     text = "\n".join(lines) + "\n"
-    if kind in ("force", "url"):
+    if kind in ("fails", "noinfer"):
+        path = dbutil.write_text(indir, "in%d.txt" % idx, text)
+        kw = dict(disable_infer_genes=True, disable_infer_transcripts=True) if kind == "noinfer" else {}
+
+        def fn():
+            db = gffutils.create_db(path, outdb, verbose=False, **kw)
+            n = db.count_features_of_type()
+            db.conn.close()
+            return n
+    elif kind in ("force", "url"):
         path = dbutil.write_text(indir, "in%d.txt" % idx, text)
         if kind == "force":
             old = gffutils.create_db(dbutil.write_text(indir, "old%d.txt" % idx, "\n".join(GFF_B) + "\n"), outdb, verbose=False)
@@ -103,6 +115,9 @@ def reference(ctx, job):
         out = os.path.join(d, "ref.db")
         if os.path.exists(out):
             os.unlink(out)
+        if job in EXPECT_FAIL:
+            ctx.memo[key] = None
+            return None
         make_import("path" if kind in ("force", "url") else kind, lines, out, d, 0)()
         ctx.memo[key] = dbutil.canon(out)
     return ctx.memo[key]
@@ -147,6 +162,9 @@ def run_imports(ch, ctx, jobs):
     ctx.sample(lambda: dict(jobs=list(jobs), schedule=[list(s) for s in schedule], stats=stats))
     compact = "".join(str(s[0]) for s in schedule)
     for c, j, out, ref in zip(children, jobs, outs, refs):
+        if j in EXPECT_FAIL:
+            ctx.check(c.exit and not c.exit.get("ok"), "failing-import-did-not-fail", dict(sig, job=j), schedule=compact)
+            continue
         if not ctx.check(c.exit and c.exit.get("ok"), "import-process-failed", dict(sig, job=j),
                          schedule=compact, ops=[list(s) for s in schedule], error=(c.exit or {}).get("err"), tb=(c.exit or {}).get("tb")):
             continue
